@@ -82,7 +82,7 @@ def tree_key():
     paths += [p for p in _walk(os.path.join(REPO, 'data')) if p.endswith('.dat') or '/kissel/' in p]
     _hash_files(h, paths)
     _hash_files(h, [os.path.abspath(__file__), os.path.join(VERIF, 'xv', 'kissel_regen.py'),
-                    os.path.join(VERIF, 'xv', 'sigtab.py')])
+                    os.path.join(VERIF, 'xv', 'sigtab.py'), os.path.join(VERIF, 'xv', 'cppgen.py')])
     h.update(json.dumps(FLAVOURS, sort_keys=True).encode())
     _KEY = h.hexdigest()[:20]
     return _KEY
@@ -321,6 +321,23 @@ def harness(config, flavour, name='xrlmon', extra_src=(), extra_flags=(), cxx=Fa
         _run(cmd)
     d = _target('h-%s-%s-%s-%s' % (name, config, flavour, hh), mk)
     return os.path.join(d, name)
+
+
+def cpptable():
+    """compile probes: which C functions have a callable wrapper in cplusplus/xraylib++.h; generated dispatch for cppmon"""
+    st = sigtab()
+
+    def mk(d):
+        _write_config(d)
+        sys.path.insert(0, os.path.join(VERIF, 'xv'))
+        import cppgen
+        cppgen.generate(REPO, st, d, d, NCPU)
+    return _target('cpptable', mk)
+
+
+def cppmon(config, flavour):
+    t = cpptable()
+    return harness(config, flavour, 'cppmon', extra_flags=['-std=c++11', '-I' + t, '-Wno-deprecated-declarations'], cxx=True)
 
 
 def harness_shared(config, name, extra_flags=()):
